@@ -28,7 +28,24 @@ class _LinalgProxy:
     def __getattr__(self, k):
         return getattr(self._la, k)
 
+    exact = False
+
     def norm(self, x, *a, **k):
+        if isinstance(x, np.ndarray) and x.dtype == object and self.exact:
+            axis = k.get("axis", a[1] if len(a) > 1 else None)
+            if axis in (None, -1) and (x.ndim == 1 or axis == -1):
+                if x.ndim == 1:
+                    s = 0
+                    for v in x:
+                        s = s + v * v
+                    return s.sqrt() if isinstance(s, SymReal) else float(s) ** 0.5
+                out = np.empty(x.shape[:-1], dtype=object)
+                for idx in np.ndindex(*x.shape[:-1]):
+                    s = 0
+                    for v in x[idx]:
+                        s = s + v * v
+                    out[idx] = s.sqrt() if isinstance(s, SymReal) else float(s) ** 0.5
+                return out
         if isinstance(x, np.ndarray) and x.dtype == object:
             # only used for messages in the analysed code: an unconstrained non-negative symbol
             from symx.values import _State
@@ -135,6 +152,42 @@ class _NpProxy:
             return symval
         return getattr(self._np, name)(x)
 
+    def _elementwise(self, name, *args):
+        """transcendental ufuncs on object arrays that mix python floats and symbols"""
+        import math
+
+        if not any(self._has_sym(a) or (isinstance(a, np.ndarray) and a.dtype == object) for a in args):
+            return getattr(self._np, name)(*args)
+
+        def one(*xs):
+            if any(is_sym(x) for x in xs):
+                x0 = xs[0] if is_sym(xs[0]) else SymReal.const(xs[0])
+                return getattr(x0, name)(*xs[1:])
+            return getattr(math, {"arctan2": "atan2", "arccos": "acos", "arcsin": "asin", "arctan": "atan"}.get(name, name))(*[float(x) for x in xs])
+
+        if any(isinstance(a, np.ndarray) for a in args):
+            bs = np.broadcast_arrays(*[np.asarray(a, dtype=object) for a in args])
+            out = np.empty(bs[0].shape, dtype=object)
+            for idx in np.ndindex(*bs[0].shape):
+                out[idx] = one(*[b[idx] for b in bs])
+            return out
+        return one(*args)
+
+    def cos(self, x):
+        return self._elementwise("cos", x)
+
+    def sin(self, x):
+        return self._elementwise("sin", x)
+
+    def sqrt(self, x):
+        return self._elementwise("sqrt", x)
+
+    def hypot(self, x, y):
+        return self._elementwise("hypot", x, y)
+
+    def arctan2(self, y, x):
+        return self._elementwise("arctan2", y, x)
+
     def isnan(self, x):
         return self._objfn("isnan", x, False)
 
@@ -225,6 +278,22 @@ def prepare(sym: bool):
     if not hasattr(Cuboid, "_orig_size_fset"):
         Cuboid._orig_size_fset = Cuboid.size.fset
         Cuboid.size = property(Cuboid.size.fget, _set_size)
+    # dtype inference: symbolic (object) arrays keep dtype=object instead of being forced to double
+    misc = importlib.import_module("pde.tools.misc")
+    if not hasattr(misc, "_symx_gcd"):
+        misc._symx_gcd = misc.get_common_dtype
+
+        def get_common_dtype(*args):
+            for a in args:
+                if isinstance(a, np.ndarray) and a.dtype == object:
+                    return np.dtype(object)
+                if is_sym(a):
+                    return np.dtype(object)
+            return misc._symx_gcd(*args)
+
+        misc.get_common_dtype = get_common_dtype
+        for name in ("pde.fields.tensorial", "pde.fields.vectorial"):
+            importlib.import_module(name).get_common_dtype = get_common_dtype
     import scipy.ndimage as ndi
 
     if not hasattr(ndi, "_symx_patched"):
